@@ -112,7 +112,7 @@ CompleteWorkflowRC(n) == [Proto("CompleteWorkflow", "", "") EXCEPT !.rc = n, !.d
 CancelWorkflowM      == Proto("CancelWorkflow", "", "")
 StartWorkflowM       == Proto("StartWorkflow", "", "")
 JumpM(s, tgt)        == [Proto("JumpToStage", s, "") EXCEPT !.target = tgt]
-SignalM(s, pers)     == [Proto("SignalStage", s, "") EXCEPT !.sig = "go", !.pers = pers]
+SignalM(s, pers, k)  == [Proto("SignalStage", s, "") EXCEPT !.sig = ToString(k), !.pers = pers]   \* k-th signal sent
 ContinueParentM(s, ph) == [Proto("ContinueParentStage", s, "") EXCEPT !.phase = ph]
 
 CountKey(pp, typ, s, t) == Cardinality({x \in pp : x[1] = typ /\ x[2] = s /\ x[3] = t})
@@ -219,8 +219,8 @@ Label(n)   == lbl' = [name |-> n, mid |-> wk.mid, c |-> TRUE]    \* a step that 
 LabelN(n)  == lbl' = [name |-> n, mid |-> wk.mid, c |-> FALSE]   \* a step without commit
 
 StageRow0 == [status |-> "NOT_STARTED", ver |-> 0, started |-> FALSE, fired |-> FALSE, cb |-> {},
-              act |-> {"-"}, bypass |-> FALSE, jumps |-> 0, buf |-> 0, sig |-> FALSE]
-TaskRow0  == [status |-> "NOT_STARTED", ver |-> 0, prog |-> 0]
+              act |-> {"-"}, bypass |-> FALSE, jumps |-> 0, buf |-> <<>>, sig |-> ""]   \* buf: names of buffered signals, sig: _signal_name
+TaskRow0  == [status |-> "NOT_STARTED", ver |-> 0, prog |-> 0, seen |-> {}]   \* seen: signal names a suspending task has counted
 Cnt0      == [crashes |-> 0, withheld |-> 0, sweeps |-> 0, cancels |-> 0, signals |-> 0, early |-> 0,
               needSweep |-> FALSE]
 
@@ -237,7 +237,7 @@ Init ==
            resulted |-> {},                      \* tasks whose RunTask result commit is durable (this iteration)
            execAfterCancel |-> 0,                \* task executions after the cancel flag became durable
            unfinishedAtCancel |-> {},            \* stages still needing a task execution when the flag was set
-           sent |-> 0, consumed |-> 0, resumes |-> 0]  \* persistent signals sent / consumed, SUSPENDED -> RUNNING resumes
+           sent |-> 0, consumed |-> 0, resumes |-> 0, consumedNames |-> <<>>]  \* persistent signals sent / consumed, SUSPENDED -> RUNNING resumes
   /\ cnt = Cnt0
   /\ lbl = [name |-> "Init", mid |-> NoMsg, c |-> FALSE]
 
@@ -460,6 +460,10 @@ StartTask ==
           /\ UNCHANGED <<wf, dlq, claims, ledger, gh, cnt>>
 
 (* handlers/run_task/handler.py: guards, then task.execute (not durable), then the result commit *)
+(* a suspending task counts each distinct signal name it is resumed with (durably, in the stage context) and
+   succeeds once it has counted b.n of them (one by default) *)
+SeenAfter(t) == LET cur == st[StageOf(t)].sig IN
+                IF P.beh[t].k = "suspend" /\ cur # "" /\ cur \notin tk[t].seen THEN tk[t].seen \cup {cur} ELSE tk[t].seen
 Outcome(t) ==
   LET b == P.beh[t] s == StageOf(t) IN
   CASE b.k = "ok" -> "succ"
@@ -468,7 +472,7 @@ Outcome(t) ==
     [] b.k = "transient" -> IF tk[t].prog < b.n THEN "transient" ELSE "succ"
     [] b.k = "transientNoCtx" -> IF Len(ledger[t]) < b.n THEN "transientnc" ELSE "succ"
     [] b.k = "jump" -> IF st[s].jumps < b.n THEN "jump" ELSE "succ"
-    [] b.k = "suspend" -> IF st[s].sig THEN "succ" ELSE "suspend"
+    [] b.k = "suspend" -> IF Cardinality(SeenAfter(t)) >= (IF b.n > 1 THEN b.n ELSE 1) THEN "succ" ELSE "suspend"
 
 JumpTarget(t) ==   \* a script may name a different target per iteration
   LET ts == P.beh[t].targets j == st[StageOf(t)].jumps + 1 IN ts[IF j <= Len(ts) THEN j ELSE Len(ts)]
@@ -505,10 +509,11 @@ RunTaskResult ==
   /\ LET t == Cur.t s == Cur.s o == wk.out IN
      /\ gh' = IF o \in {"succ", "term", "jump"} \/ (o \in {"transient", "transientnc"} /\ ~RetryBudgetLeft)
               THEN [gh EXCEPT !.resulted = @ \cup {t}]
-              ELSE IF o = "suspend" /\ st[s].buf > 0 THEN [gh EXCEPT !.consumed = @ + 1, !.resumes = @ + 1]
+              ELSE IF o = "suspend" /\ st[s].buf # <<>>
+                   THEN [gh EXCEPT !.consumed = @ + 1, !.resumes = @ + 1, !.consumedNames = Append(@, Head(st[s].buf))]
               ELSE gh
      /\ CASE o = "succ" ->
-               /\ st' = Bump(st, s) /\ tk' = Touch(tk, s)
+               /\ st' = Bump(st, s) /\ tk' = [Touch(tk, s) EXCEPT ![t].seen = SeenAfter(t)]
                /\ Commit(<<CompleteTaskM(t, "SUCCEEDED")>>, TRUE)
                /\ SetWk("hdone") /\ Label("RunTaskSucceeded")
                /\ UNCHANGED <<wf, dlq, claims, ledger, cnt>>
@@ -541,15 +546,15 @@ RunTaskResult ==
                /\ SetWk("hdone") /\ Label("RunTaskRedirect")
                /\ UNCHANGED <<wf, dlq, claims, ledger, cnt>>
           [] o = "suspend" ->
-               IF st[s].buf > 0
-               THEN \* a buffered signal is consumed and the task re-run in the same commit
-                    /\ st' = [Bump(st, s) EXCEPT ![s].buf = @ - 1, ![s].sig = TRUE]
-                    /\ tk' = Touch(tk, s)
+               IF st[s].buf # <<>>
+               THEN \* the OLDEST buffered signal is consumed and the task re-run in the same commit
+                    /\ st' = [Bump(st, s) EXCEPT ![s].buf = Tail(@), ![s].sig = Head(st[s].buf)]
+                    /\ tk' = [Touch(tk, s) EXCEPT ![t].seen = SeenAfter(t)]
                     /\ Commit(<<RunTaskM(t)>>, TRUE)
                     /\ SetWk("hdone") /\ Label("RunTaskSuspendConsumed")
                     /\ UNCHANGED <<wf, dlq, claims, ledger, cnt>>
                ELSE /\ st' = [Bump(st, s) EXCEPT ![s].status = "SUSPENDED"]
-                    /\ tk' = [Touch(tk, s) EXCEPT ![t].status = "SUSPENDED"]
+                    /\ tk' = [Touch(tk, s) EXCEPT ![t].status = "SUSPENDED", ![t].seen = SeenAfter(t)]
                     /\ Commit(<<>>, TRUE)
                     /\ SetWk("hdone") /\ Label("RunTaskSuspended")
                     /\ UNCHANGED <<wf, dlq, claims, ledger, cnt>>
@@ -813,17 +818,18 @@ SignalStage ==
   /\ LET s == Cur.s IN
      IF st[s].status = "SUSPENDED"
      THEN LET t == SuspendedTask(s) IN
-          /\ st' = [Bump(st, s) EXCEPT ![s].status = "RUNNING", ![s].sig = TRUE]
+          /\ st' = [Bump(st, s) EXCEPT ![s].status = "RUNNING", ![s].sig = Cur.sig]
           /\ tk' = [x \in DOMAIN tk |-> IF StageOf(x) = s
                                         THEN [tk[x] EXCEPT !.ver = @ + 1, !.status = IF x = t THEN "RUNNING" ELSE @]
                                         ELSE tk[x]]
           /\ Commit(IF t # "" THEN <<RunTaskM(t)>> ELSE <<StartStageM(s)>>, TRUE)
-          /\ gh' = [gh EXCEPT !.resumes = @ + 1, !.consumed = @ + (IF Cur.pers THEN 1 ELSE 0)]
+          /\ gh' = [gh EXCEPT !.resumes = @ + 1, !.consumed = @ + (IF Cur.pers THEN 1 ELSE 0),
+                              !.consumedNames = IF Cur.pers THEN Append(@, Cur.sig) ELSE @]
           /\ SetWk("hdone") /\ Label("SignalDeliver")
           /\ UNCHANGED <<wf, dlq, claims, ledger, cnt>>
      ELSE IF Cur.pers
      THEN \* not suspended (yet): a persistent signal is buffered on the stage, under the version CAS
-          /\ st' = [Bump(st, s) EXCEPT ![s].buf = @ + 1]
+          /\ st' = [Bump(st, s) EXCEPT ![s].buf = Append(@, Cur.sig)]
           /\ tk' = Touch(tk, s)
           /\ Commit(<<>>, TRUE)
           /\ SetWk("hdone") /\ Label("SignalBuffer")
@@ -929,7 +935,7 @@ SendCancel ==
 
 SendSignal(s, pers) ==
   /\ EnvOK /\ cnt.signals < MaxSignals /\ s \in DOMAIN st
-  /\ Commit(<<SignalM(s, pers)>>, FALSE)
+  /\ Commit(<<SignalM(s, pers, cnt.signals + 1)>>, FALSE)
   /\ cnt' = [cnt EXCEPT !.signals = @ + 1]
   /\ gh' = [gh EXCEPT !.sent = @ + (IF pers THEN 1 ELSE 0)]
   /\ lbl' = [name |-> "SendSignal", mid |-> <<"SignalStage", s, IF pers THEN "persistent" ELSE "transient", 0>>, c |-> TRUE]
